@@ -2,17 +2,13 @@
 from __future__ import annotations
 import time, os, json
 import z3
-from .sym import SV, INT, DEC, FLT, BOOL, Unsupported, NativeLeak
+from .sym import SV, INT, DEC, FLT, BOOL, Unsupported, NativeLeak, MergeAbort
 from .interp import PathInfeasible, PathEnd, ProgExc, Interp
 
 FEAS_RLIMIT = int(os.environ.get("PYVC_FEAS_RLIMIT", 3_000_000))
 VC_RLIMIT = int(os.environ.get("PYVC_VC_RLIMIT", 60_000_000))
 FEAS_TIMEOUT_MS = 20_000
 VC_TIMEOUT_MS = 120_000
-
-
-class MergeAbort(Unsupported):
-    """A fork was requested while evaluating both sides of a merge: fall back to forking the `if`."""
 
 
 class Stats:
@@ -366,10 +362,15 @@ class Exploration:
 
     def run(self):
         work = [[]]
+        t_start = time.time()
+        max_s = float(self.config.get("max_seconds", os.environ.get("PYVC_MAX_SECONDS", 300)))
         while work:
             prefix = work.pop()
             if self.paths >= self.max_paths:
                 self.unsupported.append(f"path budget {self.max_paths} exceeded")
+                break
+            if time.time() - t_start > max_s:
+                self.unsupported.append(f"exploration time budget {max_s:.0f}s exceeded after {self.paths} paths ({len(work) + 1} pending)")
                 break
             p = Path(prefix, self.symtab, self.paths)
             self.paths += 1
